@@ -42,6 +42,33 @@ var vxC14Ctx = [][2]string{
 	{"package p\n\nfunc f(p *int) int {\n\treturn ", "p\n}\n"},
 	{"package p\n\nconst c = 1 ", " 2\n"},
 	{"package p\n\nfunc f(x interface{}) int {\n\treturn x.(int)", "\n}\n"},
+	// type positions: parameters, results, fields, function types, interface methods, closures
+	{"package p\n\nfunc f(c ", "chan int) {\n}\n"},
+	{"package p\n\nfunc f(a, b ", "chan int) {\n}\n"},
+	{"package p\n\nfunc f() (c ", "chan int) {\n\treturn nil\n}\n"},
+	{"package p\n\nfunc f() ", "chan int {\n\treturn nil\n}\n"},
+	{"package p\n\ntype T struct {\n\tc ", "chan int\n}\n"},
+	{"package p\n\nvar f func(c ", "chan int)\n"},
+	{"package p\n\ntype I interface {\n\tM(c ", "chan int)\n}\n"},
+	{"package p\n\nvar g = func(c ", "chan int) {}\n"},
+	{"package p\n\nfunc f(a ", "int) {\n}\n"},
+	{"package p\n\nvar x ", "int\n"},
+	{"package p\n\nvar x chan", " int\n"},
+	{"package p\n\nfunc (t ", "T) m() {\n}\n\ntype T int\n"},
+	{"package p\n\nvar x = map[string]", "int{}\n"},
+	// statements
+	{"package p\n\nfunc f(c chan int) int {\n\tselect {\n\tcase v := <-c:\n\t\treturn v", "\n\tdefault:\n\t}\n\treturn 0\n}\n"},
+	{"package p\n\nfunc f(a int) {\n\tif a > 0 {\n\t} else", " {\n\t}\n}\n"},
+	{"package p\n\nfunc f(x interface{}) {\n\tswitch y := x.(type) {\n\tcase int", ":\n\t\t_ = y\n\t}\n}\n"},
+	{"package p\n\nfunc f() {\n\tdefer func() {", "}()\n}\n"},
+	{"package p\n\nfunc f(a []int) {\n\tfor i, v := range a", " {\n\t\t_, _ = i, v\n\t}\n}\n"},
+	{"package p\n\nfunc f() {\n\tgoto L\nL", ":\n}\n"},
+	{"package p\n\ntype T struct{ A int ", "}\n"},
+	// one-line blocks ending in a branch statement
+	{"package p\n\nfunc f(a bool) {\n\tfor {\n\t\tif a { break", " }\n\t}\n}\n"},
+	{"package p\n\nfunc f(a bool) {\n\tfor {\n\t\tif a { continue", " }\n\t}\n}\n"},
+	{"package p\n\nfunc f(a bool) {\n\tif a { return", " }\n}\n"},
+	{"package p\n\nfunc f(a int) {\n\tswitch a { case 1: fallthrough", "; default: }\n}\n"},
 }
 
 func vxXSig(n ast.Node) string {
